@@ -6,7 +6,7 @@ import gc
 from sim import devices
 from sim.canon import Log
 from sim.catalogue import RECIPES, NAMES, public_view_constructors
-from sim.core import outcome, quarantined
+from sim.core import outcome, quarantined, draw_config
 from sim.gen import gen_table
 from sim.loader import load_petl
 from sim.sched import Sched, Violation, gen_schedule, norm_schedule
@@ -47,7 +47,8 @@ ASSUMPTIONS = [
 C01_NAMES = [n for n in NAMES if RECIPES[n].c01]
 STACKABLE = [n for n in C01_NAMES if RECIPES[n].stackable]
 # recipes with shared per-view state get extra weight
-HOT = ['sort', 'sort', 'sort', 'cache', 'cache', 'cache-of-sort',
+HOT = ['frompickle-mem', 'fromcsv-mem', 'fromcsv-path',
+       'sort', 'sort', 'sort', 'cache', 'cache', 'cache-of-sort',
        'sort-of-sort', 'fromdicts-gen', 'fromdicts-gen', 'randomtable',
        'dummytable', 'hashjoin', 'hashleftjoin', 'hashrightjoin',
        'hashlookupjoin', 'hashantijoin', 'join', 'unjoin', 'diff',
@@ -126,6 +127,7 @@ def gen_case(rng, tier, g):
                      ['DROPVIEW', rng.randrange(nviews)])
     case = {'prop': PROP, 'stack': stack, 'tables': tables, 'steps': steps,
             'shape': shape,
+            'config': draw_config(rng, 0.12, exclude=('sort_buffersize',)),
             'knobs': {'sort_buffersize': rng.choice([None, None, 2, 3])}}
     if fork:
         case['fork'] = fork
